@@ -373,7 +373,7 @@ def build_native_runner(scratch, features='', toolchain=None, tag='native'):
     return exe, ''
 
 
-def replay_search(exe, harness, needle, budget=300000, timeout=240):
+def replay_search(exe, harness, needle, budget=300000, timeout=150):
     try:
         p = subprocess.run([exe, harness, 'search', str(budget), needle], capture_output=True, text=True, timeout=timeout)
     except subprocess.TimeoutExpired:
@@ -518,6 +518,8 @@ def check(prop, tier, seed, legs=('verus', 'kani'), keep=False, only=None):
         # replay search for new violations
         exe_cache = {}
         lines = []
+        searched_fns = {}
+        search_budget_s = [600.0]
         for v, _ in new_v:
             hit = None
             cands = []
@@ -543,6 +545,12 @@ def check(prop, tier, seed, legs=('verus', 'kani'), keep=False, only=None):
                         pairs = []
                 tagre = '['
                 cands = [(harness_name(e, n), prop) for e, n in pairs]
+            # the replay search is only an illustration of a verdict already reached: bound its cost
+            if cands and not v.get('prefound'):
+                if searched_fns.get(v['function'], 0) >= 2 or search_budget_s[0] <= 0:
+                    cands = []
+                searched_fns[v['function']] = searched_fns.get(v['function'], 0) + 1
+            t_search = time.time()
             if cands and os.path.exists(scratch):
                 key = (scratch, feats)
                 if key not in exe_cache:
@@ -554,6 +562,7 @@ def check(prop, tier, seed, legs=('verus', 'kani'), keep=False, only=None):
                         if r.get('status') == 'hit':
                             hit = dict(harness=hname, choices=r.get('choices', ''), inputs=r.get('inputs', ''), message=r.get('message', ''), runs=r.get('runs'))
                             break
+            search_budget_s[0] -= (time.time() - t_search)
             path = write_replay(v, hit)
             suffix = '' if hit else ' no-failing-input-found'
             lines.append('VIOLATION property=%s replay=%s%s' % (prop, path, suffix))
